@@ -278,6 +278,15 @@ class TimeCachingAdapter(Adapter, NoBranchAdapter, ABC):
             else:
                 self._total_mem -= d[1].nbytes
 
+    def _unpack(self, where):
+        if isinstance(where, str):
+            self.logger.profile("reading data from file %s", where)
+            data = np.load(where, allow_pickle=True)
+            # buffered data is what was pulled from the source, in its units
+            return dtools.UNITS.Quantity(data, self._input_info.units)
+
+        return where
+
     def _finalize(self):
         """Removes the data that was stored to disk."""
         for _t, d in self.data:
